@@ -577,6 +577,29 @@ def excluded_c02(e):
     return any(excluded_c02(k) for k in kids)
 
 
+def deep_ast(kind, d):
+    """an AST of nesting depth d of one of six shapes"""
+    e = ("var", "z%d" % d)
+    for i in range(d):
+        if kind == "right":
+            e = ("bin", "+", ("var", "a%d" % i), ("paren", e))
+        elif kind == "left":
+            e = ("bin", "*", ("paren", e), ("var", "b%d" % i))
+        elif kind == "neg":
+            e = ("pre", "-", e)
+        elif kind == "call":
+            e = ("call", "f%d" % (i % 3), e)
+        elif kind == "paren":
+            e = ("paren", e)
+        elif kind == "chainr":      # a ^ b ^ c ... without parentheses is left-associative: ((a ^ b) ^ c)
+            e = ("bin", "-", e, ("var", "c%d" % i))
+        elif kind == "assign":      # x = y = z ... groups to the right
+            e = ("asg", "=", "w%d" % i, e)
+        else:
+            e = ("paren", ("tuple", [("var", "t%d" % i), e]))
+    return e
+
+
 def c02_gen(tier, rng):
     cases = []
     for raw in all_two_operator_asts():
@@ -585,11 +608,22 @@ def c02_gen(tier, rng):
         cases.append(ast_tree_case(G.add_redundant_parens(rng, e, 0.3), rng, "tight"))
     n = 15000 if tier == "quick" else 100000
     for _ in range(n):
-        raw = G.rand_expr(rng, rng.randint(1, 6), allow_seq=False)
+        # a quarter with parenthesised sequences as operands and arguments: -f(a, b), f(a; b) ^ 2, x = (a, b) * c
+        raw = G.rand_expr(rng, rng.randint(1, 6), allow_seq=rng.random() < 0.25)
         e = G.parenthesize(raw)
         if rng.random() < 0.4:
             e = G.add_redundant_parens(rng, e)
         cases.append(ast_tree_case(e, rng, rng.choice(["space", "tight", "random"])))
+    # long chains at one precedence level and deep nesting
+    for kind in ("right", "left", "neg", "call", "paren", "tuple", "chainr", "assign"):
+        for d in (8, 15, 33, 70, 140) if tier == "quick" else range(8, 400, 7):
+            cases.append(ast_tree_case(G.parenthesize(deep_ast(kind, d)), rng, "tight"))
+    for op in G.BINOPS:
+        for d in (9, 40):
+            e = ("var", "a")
+            for i in range(d):
+                e = ("bin", op, e, ("var", "b%d" % i)) if op != "^" or True else e
+            cases.append(ast_tree_case(G.parenthesize(e), rng, "space"))
     # exhaustive short token sequences: model vs implementation only
     for seq in G.token_sequences_exhaustive(G.TOKEN_ALPHABET16, 4):
         cases.append(("TREE\t" + hexs(" ".join(seq)), {"kind": "token-seq"}))
@@ -1906,10 +1940,15 @@ def c09_cases(names_builtin, names_other, rng, full):
                     for var in ((False, True, "first") if kind in ("H", "N") else (False,)):
                         if var == "first" and not userfn:
                             continue
-                        for post in (("", "clone", "clrf") if kind == "H" else ("",)):
+                        for post in (("", "clone", "clrf", "clone-first") if kind == "H" else ("",)):
                             if not full and rng.random() < 0.5 and post:
                                 continue
                             setup = []
+                            off_first = kind in ("H", "N") and off is not None and rng.random() < 0.3   # the switch is set before anything is bound
+                            if post == "clone-first":   # everything is bound on the clone; the original must stay empty
+                                setup.append("clone")
+                            if off_first:
+                                setup += ["off 1", "off 0"] if off == "toggle" else ["off %d" % off]
                             if kind in ("H", "N"):
                                 setup.append("init %s I5" % hexs("x"))
                                 setup.append("init %s T(I7)" % hexs("t1"))
@@ -1924,17 +1963,20 @@ def c09_cases(names_builtin, names_other, rng, full):
                                     setup.append("setfn %s konst:%s" % (hexs(n), MARK))
                                 if var is True:
                                     setup.append("init %s S%s" % (hexs(n), hexs("var")))
-                                if off == "toggle":     # disabled, then enabled again
+                                if off_first:
+                                    pass
+                                elif off == "toggle":     # disabled, then enabled again
                                     setup += ["off 1", "off 0"]
                                 elif off is not None:
                                     setup.append("off %d" % off)
-                                if post:
+                                if post and post != "clone-first":
                                     setup.append(post)
                             disabled = {"E": True, "EB": False}.get(kind, off is True)
                             has_user = (userfn if post != "clrf" else False)
                             forms = [("%s(3)" % n, "I3"), ("%s 3" % n, "I3"), ("%s()" % n, "E"), ("%s(3, 4)" % n, "T(I3,I4)"),
                                      ('%s "s"' % n, "S" + hexs("s")), ("%s true" % n, "B1"), ("%s 2.5" % n, "F4004000000000000"),
                                      ("%s x" % n, "I5") if kind in ("H", "N") else ("%s (())" % n, "E")]
+                            forms += [("%s %s 3" % (n, n), "I3"), ("%s((3))" % n, "I3"), ("%s /* c */ (3)" % n, "I3"), ("%s\n3" % n, "I3")]
                             if kind in ("H", "N"):
                                 forms.append(("%s t1" % n, "T(I7)"))     # a one-element tuple is passed as it is
                                 forms.append(("%s(t1)" % n, "T(I7)"))
@@ -1979,6 +2021,9 @@ def c09_post(cases, impl, model):
             continue
         steps = step_outputs(out)[m["nsetup"]:]
         n = m["name"]
+        if "CLONE-MISMATCH" in out:
+            fails.append((i, "binding %s on a clone changed the original context: %s" % (n, out[-300:])))
+            continue
         log = out[out.index("LOG[") + 4:out.rindex("]")] if "LOG[" in out else ""
         for (src, arg), got in zip(m["forms"], steps):
             nested = src.startswith("wrap ")
@@ -2075,6 +2120,8 @@ def c14_gen(tier, rng):
         e = G.parenthesize_seq(raw) if raw[0] in ("tuple", "chain") else G.parenthesize(raw)
         if rng.random() < 0.3:
             e = G.add_redundant_parens(rng, e)
+        if rng.random() < 0.25:     # variables named like builtins and like the functions of the program: the class comes from the syntax only
+            e = rename_ast(e, lambda c, nm: {"a": "len", "b": "max", "c": "f", "x": "typeof", "foo": "if"}.get(nm, nm) if c in "RW" else nm)
         src = G.render(G.flatten(e), rng, rng.choice(["space", "tight"]))
         occ = occurrences(e)
         j = lambda cls: ",".join(hexs(nm) for c, nm in occ if c in cls)
@@ -2084,24 +2131,9 @@ def c14_gen(tier, rng):
                                              "want": {"ids": j("WFR"), "vars": j("WR"), "reads": j("R"), "writes": j("W"), "fns": j("F")},
                                              "renamed": G.tree_of_top(renamed)}))
     # deep nesting: the traversal has no depth limit
-    def deep(kind, d):
-        e = ("var", "z%d" % d)
-        for i in range(d):
-            if kind == "right":
-                e = ("bin", "+", ("var", "a%d" % i), ("paren", e))
-            elif kind == "left":
-                e = ("bin", "*", ("paren", e), ("var", "b%d" % i))
-            elif kind == "neg":
-                e = ("pre", "-", e)
-            elif kind == "call":
-                e = ("call", "f%d" % (i % 3), e)
-            elif kind == "paren":
-                e = ("paren", e)
-            else:
-                e = ("paren", ("tuple", [("var", "t%d" % i), e]))
-        return e
+    deep = deep_ast
     for kind in ("right", "left", "neg", "call", "paren", "tuple"):
-        for d in (30, 31, 32, 33, 34, 40, 64, 65, 100, 130) if tier == "quick" else range(20, 260, 3):
+        for d in ((30, 31, 32, 33, 34, 40, 64, 65, 100, 130, 255, 256, 257, 300, 600, 1000) + ((1500, 2000) if kind == "neg" else ()) if kind != "tuple" else (30, 33, 65, 130, 257, 400)) if tier == "quick" else list(range(20, 260, 3)) + [300, 512, 1000, 1024, 1025, 2000]:
             e = deep(kind, d)
             src = G.render(G.flatten(e), None, "tight")
             occ = occurrences(e)
@@ -2745,14 +2777,14 @@ def c16_special(tier, rng, hooks):
         else:
             src = G.rand_unicode_string(rng, 12)
         lines.append("%d\tSERDEN\t%s" % (i, hexs(src)))
-    for src in ["", " ", "  a + 1  ", "\ta\n", "1 +", ")", "\"", "a /* x", "1, 2; 3"]:
+    for src in ["", " ", "  a + 1  ", "\ta\n", "1 +", ")", "\"", "a /* x", "1, 2; 3", "1 + 2 /* todo", "/*", "\"a\\n\"", "(", "a b", "1 2", "= 1", "a \\ b", "\"\\", "1 )) 2"]:
         lines.append("%d\tSERDEN\t%s" % (len(lines), hexs(src)))
     for i in range(n // 2):
         ops = []
-        for _ in range(rng.randint(0, 8)):
+        for _ in range(rng.randint(0, 8) if rng.random() < 0.8 else rng.randint(9, 40)):
             r = rng.random()
             if r < 0.7:
-                ops.append("set %s %s" % (hexs(rng.choice(["a", "b", "ä", "", "x y", "z"])), G.rand_value(rng) if rng.random() < 0.6 else rng.choice(G.pool())))
+                ops.append("set %s %s" % (hexs(rng.choice(["a", "b", "ä", "", "x y", "z", "variables", "functions", "without_builtin_functions", "a1", "a2", "a3", "a4", "a5", "Value", "Int", "\"", "(", "\\"])), G.rand_value(rng) if rng.random() < 0.6 else rng.choice(G.pool())))
             elif r < 0.85:
                 ops.append("off %d" % (rng.random() < 0.5))
             else:
